@@ -43,17 +43,17 @@ func cvF2(args ...ugo.Object) (ugo.Object, error) { return ugo.True, nil }
 type cvStruct struct{ A int }
 
 var (
-	cvFuncs   = []ugo.CallableFunc{cvF1, cvF2}
-	cvErrs    = []error{errors.New("boom"), errors.New(""), &os.PathError{Op: "open", Path: "/x", Err: errors.New("nope")}}
-	cvNilErrs = []error{(*os.PathError)(nil), (*os.SyscallError)(nil), (*json.SyntaxError)(nil)}
-	cvLocs    = []*time.Location{time.UTC, time.FixedZone("X", 3600)}
-	cvTimes   = []time.Time{{}, time.Unix(0, 0).UTC(), time.Unix(1700000000, 123456789).In(cvLocs[1]), time.Unix(1<<40, 999999999).UTC()}
-	cvScan    []ugo.Object // one scanArg per scannable type
-	cvScanNil ugo.Object   // (*scanArg)(nil)
-	cvScanNoArg ugo.Object // &scanArg{} (argValue == nil)
-	cvScanType reflect.Type
-	cvOthers  []ugo.Object
-	cvUnsupp  []any
+	cvFuncs     = []ugo.CallableFunc{cvF1, cvF2}
+	cvErrs      = []error{errors.New("boom"), errors.New(""), &os.PathError{Op: "open", Path: "/x", Err: errors.New("nope")}}
+	cvNilErrs   = []error{(*os.PathError)(nil), (*os.SyscallError)(nil), (*json.SyntaxError)(nil)}
+	cvLocs      = []*time.Location{time.UTC, time.FixedZone("X", 3600)}
+	cvTimes     = []time.Time{{}, time.Unix(0, 0).UTC(), time.Unix(1700000000, 123456789).In(cvLocs[1]), time.Unix(1<<40, 999999999).UTC()}
+	cvScan      []ugo.Object // one scanArg per scannable type
+	cvScanNil   ugo.Object   // (*scanArg)(nil)
+	cvScanNoArg ugo.Object   // &scanArg{} (argValue == nil)
+	cvScanType  reflect.Type
+	cvOthers    []ugo.Object
+	cvUnsupp    []any
 )
 
 func init() {
@@ -937,6 +937,11 @@ func cvGoSpecials() []any {
 	for _, t := range cvTimes {
 		p = append(p, t)
 	}
+	for i := range cvTimes {
+		// pointers to every time of the pool, the zero time included (a non-nil pointer is a value)
+		tp := cvTimes[i]
+		p = append(p, &tp)
+	}
 	for _, l := range cvLocs {
 		p = append(p, l)
 	}
@@ -1487,6 +1492,7 @@ func init() {
 					cvOracleGo(c, cvFns[1], g)
 				}
 			}
+			cvRegistryRoundTrip(c)
 			m := 300 * c.Scale
 			for i := 0; i < m; i++ {
 				o := cvRandPlain(c.R, 4, false, plainAll)
@@ -1511,4 +1517,82 @@ func init() {
 			return cvImpl(f[1], f[2])
 		},
 	})
+}
+
+// cvRegistryRoundTrip: Go values of the registered types (time.Time by value and by non-nil pointer,
+// the zero time included; *time.Location; json.RawMessage) cross the boundary and come back as the
+// same value: ToInterface(ToObject(g)) == g, bare and nested in []any / map[string]any.
+func cvRegistryRoundTrip(c *Ctx) {
+	same := func(want, got any) bool {
+		switch w := want.(type) {
+		case time.Time:
+			g, ok := got.(time.Time)
+			return ok && g.Equal(w) && g.Location().String() == w.Location().String()
+		case *time.Location:
+			g, ok := got.(*time.Location)
+			return ok && g != nil && g.String() == w.String()
+		case json.RawMessage:
+			g, ok := got.(json.RawMessage)
+			return ok && string(g) == string(w)
+		}
+		return false
+	}
+	var cases []struct {
+		in   any
+		want any
+	}
+	for i := range cvTimes {
+		t := cvTimes[i]
+		tp := t
+		cases = append(cases, struct{ in, want any }{t, t}, struct{ in, want any }{&tp, t})
+	}
+	for _, l := range cvLocs {
+		cases = append(cases, struct{ in, want any }{l, l})
+	}
+	for _, raw := range []json.RawMessage{json.RawMessage("{\"a\":1}"), json.RawMessage("[]"), json.RawMessage("0")} {
+		r := raw
+		cases = append(cases, struct{ in, want any }{r, r}) // (*json.RawMessage is not a registered type)
+	}
+	for _, f := range cvFns {
+		for _, cs := range cases {
+			for _, wrap := range []string{"bare", "slice", "map"} {
+				in := cs.in
+				switch wrap {
+				case "slice":
+					in = []any{cs.in}
+				case "map":
+					in = map[string]any{"k": cs.in}
+				}
+				desc := fmt.Sprintf("%T (%s)", cs.in, wrap)
+				func() {
+					defer func() {
+						if r := recover(); r != nil {
+							c.Violation(PropViolation{"C20", fmt.Sprintf("ToInterface(%s(g)) panics for g of type %s: %v", f.name, desc, r), cvGoStr(in), "C20:panic:rt-registry:" + f.name + ":" + fmt.Sprintf("%T", cs.in)})
+						}
+					}()
+					o, err := f.fn(in)
+					if err != nil {
+						c.Violation(PropViolation{"C20", fmt.Sprintf("%s rejects a value of the registered type %s: %v", f.name, desc, err), cvGoStr(in), "C20:rt-registry:" + f.name + ":" + fmt.Sprintf("%T", cs.in)})
+						return
+					}
+					back := ugo.ToInterface(o)
+					switch wrap {
+					case "slice":
+						if a, ok := back.([]any); ok && len(a) == 1 {
+							back = a[0]
+						}
+					case "map":
+						if m, ok := back.(map[string]any); ok {
+							back = m["k"]
+						}
+					}
+					c.dist["oracle:registry-roundtrip"]++
+					if !same(cs.want, back) {
+						c.Violation(PropViolation{"C20", fmt.Sprintf("ToInterface(%s(g)) for g of type %s gives %T %v, want the same value back (via %s)", f.name, desc, back, back, cvObjStr(o)),
+							cvGoStr(in), "C20:rt-registry:" + f.name + ":" + fmt.Sprintf("%T", cs.in)})
+					}
+				}()
+			}
+		}
+	}
 }
